@@ -37,7 +37,7 @@ META = {
     'components_stub': ['open() and os.path.getsize seen by the file-interception module (delegating proxies)', 'S3 bucket'],
     'budgets': {'quick': {'seconds': 25}, 'thorough': {'seconds': 300}},
     'required_probes': {'thorough': ['size_at_limit', 'size_limit_plus_1', 'size_limit_minus_1', 'content_is_placeholder', 'binary_all_bytes', 'empty_file',
-                                     'limit_from_environment', 'path_by_keyword', 'path_positional', 'read_fault', 'above_limit_not_opened', 'stale_file_at_replay_path', 'explicit_zero_limit', 'more_than_1MiB_below_limit', 'two_threads_one_handler']},
+                                     'limit_from_environment', 'path_by_keyword', 'path_positional', 'read_fault', 'above_limit_not_opened', 'stale_file_at_replay_path', 'explicit_zero_limit', 'more_than_1MiB_below_limit', 'two_threads_one_handler', 'path_is_a_symbolic_link', 'read_fault_in_the_middle_of_the_file']},
 }
 
 
@@ -45,12 +45,42 @@ class OpenProxy(object):
     def __init__(self):
         self.opens = []
         self.fail_read_of = None
+        self.fail_after = None        # None: open() itself fails; n: reads fail after n bytes
 
     def __call__(self, path, mode='r', *a, **k):
         self.opens.append((os.path.basename(str(path)), mode))
         if 'r' in mode and self.fail_read_of is not None and os.path.basename(str(path)) == self.fail_read_of:
-            raise IOError('injected: cannot read %s' % path)
+            if self.fail_after is None:
+                raise IOError('injected: cannot read %s' % path)
+            return FailingReader(builtins.open(path, mode, *a, **k), self.fail_after)
         return builtins.open(path, mode, *a, **k)
+
+
+class FailingReader(object):
+    """A file whose reads fail (EIO) once `after` bytes have been delivered."""
+
+    def __init__(self, f, after):
+        self._f, self._left = f, after
+
+    def read(self, n=-1):
+        if n is None or n < 0 or n > self._left:
+            self._f.read(self._left)
+            raise IOError(5, 'injected: Input/output error')
+        self._left -= n
+        return self._f.read(n)
+
+    def __iter__(self):
+        raise IOError(5, 'injected: Input/output error')
+
+    def __enter__(self):
+        return self
+
+    def __exit__(self, *exc):
+        self._f.close()
+        return False
+
+    def __getattr__(self, name):
+        return getattr(self._f, name)
 
 
 class OsProxy(object):
@@ -212,6 +242,7 @@ def _run(tape, clock, scratch, oproxy, osproxy):
     limit_bytes = (1 << 20) if big else tape.choice([1, 2, 7, 24, 100, 1000])
     by_keyword = bool(tape.draw(2))
     fault = tape.draw(8) == 7
+    via_link = tape.draw(4) == 3       # the intercepted paths are symbolic links to the files (a blob cache, a "current" link)
     os.environ.pop('PLAYBACK_INTERCEPTED_FILE_SIZE_LIMIT', None)
     if limit_mode == 'arg':
         limit_arg = limit_bytes / MB
@@ -245,6 +276,8 @@ def _run(tape, clock, scratch, oproxy, osproxy):
     run.probe(label)
     run.probe(label2)
     run.probe('path_by_keyword' if by_keyword else 'path_positional')
+    if via_link:
+        run.probe('path_is_a_symbolic_link')
     in_above = len(in_content) > limit_bytes
     out_above = len(out_content) > limit_bytes
     store = C.gen_store(tape, clock)
@@ -272,8 +305,15 @@ def _run(tape, clock, scratch, oproxy, osproxy):
                         seen['input_bytes'] = f.read()
                     seen['input_path'] = got
                     p_out = os.path.join(scratch, 'out-%d.bin' % phase['n'])
-                    with builtins.open(p_out, 'wb') as f:
-                        f.write(phase['out_content'])
+                    if via_link:
+                        with builtins.open(p_out + '.target', 'wb') as f:
+                            f.write(phase['out_content'])
+                        if os.path.lexists(p_out):
+                            os.remove(p_out)
+                        os.symlink(p_out + '.target', p_out)
+                    else:
+                        with builtins.open(p_out, 'wb') as f:
+                            f.write(phase['out_content'])
                     if by_keyword:
                         self.store(file_path=p_out)
                     else:
@@ -283,6 +323,13 @@ def _run(tape, clock, scratch, oproxy, osproxy):
                 @recorder.intercept_input('fetch', data_handler=in_handler, capture_args=[CapturedArg(1, 'key')])
                 def fetch(self, key, file_path):
                     seen['fetch_body_ran'] = True
+                    if via_link:
+                        with builtins.open(file_path + '.target', 'wb') as f:
+                            f.write(in_content)
+                        if os.path.lexists(file_path):
+                            os.remove(file_path)
+                        os.symlink(file_path + '.target', file_path)
+                        return file_path
                     with builtins.open(file_path, 'wb') as f:
                         f.write(in_content)
                     return file_path
@@ -302,8 +349,12 @@ def _run(tape, clock, scratch, oproxy, osproxy):
         Svc, seen, out_handler = build(recorder)
         if fault:
             oproxy.fail_read_of = 'in-1.bin'
+            oproxy.fail_after = tape.choice([None, 0, 1, len(in_content) // 2, max(0, len(in_content) - 1)])
+            if oproxy.fail_after is not None:
+                run.probe('read_fault_in_the_middle_of_the_file')
         out = R.call_outcome(lambda: Svc().execute())
         oproxy.fail_read_of = None
+        oproxy.fail_after = None
         run.check(out.kind == 'return' and out.value == len(in_content) and seen.get('input_bytes') == in_content, 'service_unaffected', 'service-affected',
                   lambda: 'recording changed the service result: %r' % (out,))
         rec_ids = [c[1] for c in spy.calls if c[0] == 'create']
